@@ -70,6 +70,44 @@ impl Content {
         self.out.retain(|_, v| !v.is_empty());
         self.inn.retain(|_, v| !v.is_empty());
     }
+    /// the identity of the commitment content as the enforcement state sees it: every HTLC
+    /// (the payments model only sees the sums per hash)
+    fn key(&self) -> String {
+        let norm = |m: &BTreeMap<u64, Vec<u64>>| -> Vec<(u64, Vec<u64>)> {
+            m.iter()
+                .filter(|(_, v)| !v.is_empty())
+                .map(|(h, v)| {
+                    let mut v = v.clone();
+                    v.sort();
+                    (*h, v)
+                })
+                .collect()
+        };
+        format!("{:?}|{:?}", norm(&self.out), norm(&self.inn))
+    }
+    /// what a stored commitment holds, from the node's point of view
+    fn of_info(info: &lightning_signer::tx::tx::CommitmentInfo2, holder: bool) -> Content {
+        let mut c = Content::default();
+        let hid = |p: &PaymentHash| HASHES.iter().copied().find(|h| ph(*h) == *p).unwrap_or(99);
+        let (ours, theirs) = if holder { (&info.offered_htlcs, &info.received_htlcs) } else { (&info.received_htlcs, &info.offered_htlcs) };
+        for h in ours {
+            c.out.entry(hid(&h.payment_hash)).or_default().push(h.value_sat);
+        }
+        for h in theirs {
+            c.inn.entry(hid(&h.payment_hash)).or_default().push(h.value_sat);
+        }
+        c
+    }
+}
+
+/// content identities for the enforcement model: 0 is the commitment without HTLCs
+#[derive(Default)]
+struct Cids(BTreeMap<String, u64>);
+impl Cids {
+    fn of(&mut self, c: &Content) -> u64 {
+        let n = self.0.len() as u64;
+        *self.0.entry(c.key()).or_insert(n)
+    }
 }
 
 fn preimage(h: u64) -> [u8; 32] {
@@ -95,6 +133,8 @@ struct Chan {
     pending_revoke: Option<u64>,
     /// holder commitment numbers whose secret a revocation reply handed out
     disclosed: Vec<u64>,
+    /// the last revocation reply: (number of the point, number of the secret)
+    last_revoke_reply: (Option<u64>, Option<u64>),
 }
 
 struct Sys {
@@ -142,7 +182,7 @@ impl Sys {
             sys.node.setup_channel(id.clone(), None, setup.clone(), &DerivationPath::master()).expect("setup");
             let keys = make_test_counterparty_keys(&sys.nctx(), &id, VALUE);
             let ctx = TestChannelContext { channel_id: id.clone(), setup, counterparty_keys: keys };
-            sys.chans.push(Chan { id, ctx, hcur: Content::default(), ccur: Content::default(), hnxt: None, pending_revoke: None, disclosed: vec![] });
+            sys.chans.push(Chan { id, ctx, hcur: Content::default(), ccur: Content::default(), hnxt: None, pending_revoke: None, disclosed: vec![], last_revoke_reply: (None, None) });
             // initial commitments on both sides, without HTLCs
             let nctx = sys.nctx();
             let mut c0 = channel_commitment(&nctx, &sys.chans[i].ctx, 0, 1100, VALUE - 1000, 0, vec![], vec![]);
@@ -165,7 +205,8 @@ impl Sys {
     }
 
     /// keep the counterparty window open: revoke their oldest unrevoked commitment if needed
-    fn make_room_for_cp(&self, i: usize) {
+    /// (returns the revoked number)
+    fn make_room_for_cp(&self, i: usize) -> Option<u64> {
         let e = self.estate(i);
         if e.next_counterparty_commit_num > e.next_counterparty_revoke_num + 1 {
             let r = e.next_counterparty_revoke_num;
@@ -173,7 +214,78 @@ impl Sys {
             self.node
                 .with_channel(&self.chans[i].id, |c| c.validate_counterparty_revocation(r, &sk))
                 .expect("counterparty revocation");
+            return Some(r);
         }
+        None
+    }
+
+    fn disk_estate(&self, i: usize) -> Option<EnforcementState> {
+        use lightning_signer::persist::Persist;
+        let chans = self.world.persister.get_node_channels(&self.node_id).expect("channels");
+        chans.into_iter().find(|(id, _)| *id == self.chans[i].id).map(|(_, e)| e.enforcement_state)
+    }
+
+    /// which holder commitment number a point / a secret of channel i belongs to (small range)
+    fn point_number(&self, i: usize, p: &PublicKey) -> Option<u64> {
+        use lightning_signer::lightning::sign::ChannelSigner;
+        let slot = self.node.get_channel(&self.chans[i].id).expect("slot");
+        let g = slot.lock().unwrap();
+        let keys = match &*g {
+            ChannelSlot::Ready(c) => c.keys.clone(),
+            ChannelSlot::Stub(s) => s.keys.clone(),
+        };
+        (0..64u64).find(|k| keys.get_per_commitment_point(INITIAL - k, &self.secp).ok() == Some(*p))
+    }
+    fn secret_number(&self, i: usize, s: &[u8]) -> Option<u64> {
+        use lightning_signer::lightning::sign::ChannelSigner;
+        let slot = self.node.get_channel(&self.chans[i].id).expect("slot");
+        let g = slot.lock().unwrap();
+        let keys = match &*g {
+            ChannelSlot::Ready(c) => c.keys.clone(),
+            ChannelSlot::Stub(s) => s.keys.clone(),
+        };
+        (0..64u64).find(|k| keys.release_commitment_secret(INITIAL - k).ok().map(|x| x.to_vec()) == Some(s.to_vec()))
+    }
+
+    /// identity of a counterparty point: n for the point of cp_secret(n)
+    fn cp_point_id(&self, p: &Option<PublicKey>) -> String {
+        match p {
+            None => "None".into(),
+            Some(p) => match (0..64u64).find(|n| PublicKey::from_secret_key(&self.secp, &SecretKey::from_slice(&cp_secret(*n)).unwrap()) == *p) {
+                Some(n) => format!("Some {}", n),
+                None => "Some 9999".into(),
+            },
+        }
+    }
+
+    /// Model/EnforcementCheck.v eobs of one stored enforcement state
+    fn estate_coq(&self, e: &EnforcementState, cids: &mut Cids) -> String {
+        let mut id = |o: &Option<lightning_signer::tx::tx::CommitmentInfo2>, holder: bool| -> String {
+            o.as_ref().map(|i| format!("Some {}", cids.of(&Content::of_info(i, holder)))).unwrap_or("None".into())
+        };
+        let cur_h = id(&e.current_holder_commit_info, true);
+        let nxt_h = id(&e.next_holder_commit_info.as_ref().map(|(i, _)| i.clone()), true);
+        let cur_c = id(&e.current_counterparty_commit_info, false);
+        let prev_c = id(&e.previous_counterparty_commit_info, false);
+        let min_seen = e.counterparty_secrets.as_ref().map(|s| s.get_min_seen_secret()).unwrap_or(1 << 48);
+        format!(
+            "(({}, {}, {}, {}), ({}, {}, {}, {}, {}, {}), {})",
+            e.next_holder_commit_num, cur_h, nxt_h, coq_bool(e.channel_closed),
+            e.next_counterparty_commit_num, e.next_counterparty_revoke_num,
+            self.cp_point_id(&e.current_counterparty_point), self.cp_point_id(&e.previous_counterparty_point),
+            cur_c, prev_c, min_seen
+        )
+    }
+    /// memory and persisted image of every channel
+    fn chans_coq(&self, cids: &mut Cids) -> String {
+        let rows: Vec<String> = (0..self.chans.len())
+            .map(|i| {
+                let m = self.estate(i);
+                let d = self.disk_estate(i).unwrap_or(m.clone());
+                format!("Some ({}, {})", self.estate_coq(&m, cids), self.estate_coq(&d, cids))
+            })
+            .collect();
+        coq_list(&rows)
     }
 
     /// `off`: 0 = the next number; -1 = a retry of the current one; -2 = a stale number
@@ -214,6 +326,10 @@ impl Sys {
     fn revoke(&mut self, i: usize) -> bool {
         let n = self.chans[i].pending_revoke.unwrap_or(self.estate(i).next_holder_commit_num);
         let r = self.node.with_channel(&self.chans[i].id, |ch| ch.revoke_previous_holder_commitment(n));
+        self.chans[i].last_revoke_reply = match &r {
+            Ok((p, s)) => (self.point_number(i, p), s.as_ref().and_then(|s| self.secret_number(i, &s[..]))),
+            Err(_) => (None, None),
+        };
         match &r {
             Ok((_, secret)) => {
                 self.chans[i].pending_revoke = None;
@@ -248,30 +364,44 @@ impl Sys {
     }
 
     /// C02 at the end of a history: the signer is restarted from its store and asked for its
-    /// signature on the current holder commitment of every channel (a force close); none of the
-    /// numbers it signs may be one whose secret a revocation reply handed out
-    fn force_close_all(&mut self) -> Vec<String> {
+    /// signature on the current holder commitment of every channel (a force close), and on the
+    /// next number; none of the numbers it signs may be one whose secret a revocation reply
+    /// handed out.  Also returns these requests as joint-model steps (op, observation).
+    fn force_close_all(&mut self, cids: &mut Cids) -> (Vec<String>, Vec<(String, String)>) {
         let mut v = vec![];
+        let mut steps = vec![];
         let (world, id) = (&self.world, self.node_id);
         match catch_unwind(AssertUnwindSafe(|| world.restart(&id))) {
             Ok(n) => self.node = n,
-            Err(_) => return v,
+            Err(_) => return (v, steps),
         }
+        steps.push(("JRestart".to_string(), format!("(mkO Ok None None None None, {}, {})", self.observe(), self.chans_coq(cids))));
         for i in 0..self.chans.len() {
             let node = self.node.clone();
             let cid = self.chans[i].id.clone();
             let next = self.estate(i).next_holder_commit_num;
             for n in [next.saturating_sub(1), next] {
+                let cur = self.estate(i).current_holder_commit_info.as_ref().map(|x| Content::of_info(x, true));
                 let r = catch_unwind(AssertUnwindSafe(|| node.with_channel(&cid, |ch| ch.sign_holder_commitment_tx_phase2(n)).is_ok()));
-                if matches!(r, Ok(true)) && self.chans[i].disclosed.contains(&n) {
+                let okk = matches!(r, Ok(true));
+                if r.is_err() {
+                    return (v, steps);
+                }
+                if okk && self.chans[i].disclosed.contains(&n) {
                     v.push(format!(
                         "C02: after a restart channel {} signs holder commitment {} for broadcast although a revocation reply handed out the secret of {} (disclosed: {:?})",
                         i, n, n, self.chans[i].disclosed
                     ));
                 }
+                let outp = if okk {
+                    format!("mkO Ok None None (Some ({}, {})) None", n, cur.map(|c| cids.of(&c)).unwrap_or(9999))
+                } else {
+                    "mkO Refused None None None None".to_string()
+                };
+                steps.push((format!("JSignHolder {} {}", i, n), format!("({}, {}, {})", outp, self.observe(), self.chans_coq(cids))));
             }
         }
-        v
+        (v, steps)
     }
 
     fn observe(&self) -> String {
@@ -388,6 +518,13 @@ fn run_case(case: usize, nch: usize, script: Option<Vec<Op>>, rng: &mut Rng, len
     let mut aborted = false;
     let n_steps = script.as_ref().map(|s| s.len()).unwrap_or(len);
     let mut retry_revoke: Option<usize> = None;
+    // the same history as a case of Model/JointCheck.v: explicit numbers, points and content
+    // identities, the counterparty revocations the harness slips in, the reply and after every
+    // request the ledger and the enforcement state (memory and store) of every channel
+    let mut cids = Cids::default();
+    cids.of(&Content::default());
+    let mut jt_ops: Vec<String> = vec![];
+    let mut jt_obs: Vec<String> = vec![];
     for step in 0..n_steps {
         let op = match &script {
             Some(s) => s[step].clone(),
@@ -451,8 +588,34 @@ fn run_case(case: usize, nch: usize, script: Option<Vec<Op>>, rng: &mut Rng, len
         };
         if let Op::SignCp(i, _) = &op {
             // not part of the request under observation: let the counterparty revoke first
-            sys.make_room_for_cp(*i);
+            if let Some(r) = sys.make_room_for_cp(*i) {
+                jt_ops.push(format!("JCpRevoke {} {} {} {} true", i, r, r, r));
+                jt_obs.push(format!("(mkO Ok None None None None, {}, {})", sys.observe(), sys.chans_coq(&mut cids)));
+            }
         }
+        // what the request is for the joint model (numbers as the node would send them)
+        let jpre: (String, u8, u64, u64) = match &op {
+            Op::SignCp(i, c) | Op::SignCpOff(i, c, _) => {
+                let off = if let Op::SignCpOff(_, _, off) = &op { *off } else { 0 };
+                let n = (sys.estate(*i).next_counterparty_commit_num as i64 + off).max(0) as u64;
+                let cid = cids.of(c);
+                (format!("JSignCp {} {} {} {} {} true", i, n, n, cid, c.coq()), 1, n, cid)
+            }
+            Op::Validate(i, c) | Op::ValidateOff(i, c, _) => {
+                let off = if let Op::ValidateOff(_, _, off) = &op { *off } else { 0 };
+                let n = (sys.estate(*i).next_holder_commit_num as i64 + off).max(0) as u64;
+                let cid = cids.of(c);
+                (format!("JValidateHolder {} {} {} {} SGood true", i, n, cid, c.coq()), 0, n, cid)
+            }
+            Op::Revoke(i) => {
+                let n = sys.chans[*i].pending_revoke.unwrap_or(sys.estate(*i).next_holder_commit_num);
+                (format!("JRevoke {} {}", i, n), 2, *i as u64, 0)
+            }
+            Op::Fulfil(_, h) => (format!("JFulfil {}", h), 0, 0, 0),
+            Op::Heartbeat => ("JHeartbeat".to_string(), 0, 0, 0),
+            Op::Restart => ("JRestart".to_string(), 0, 0, 0),
+            Op::Invoice(_, _) => (String::new(), 3, 0, 0),
+        };
         let before: Vec<(u64, u64)> = HASHES.iter().map(|h| sys.flight(*h)).collect();
         let before_fp = fingerprint_full(&sys.node);
         let before_store = store_dump(&sys.world.persister);
@@ -623,12 +786,39 @@ fn run_case(case: usize, nch: usize, script: Option<Vec<Op>>, rng: &mut Rng, len
                 }
             }
         }
+        {
+            let (jop, kind, a, b) = jpre;
+            // an approval: the amount is the one the signer was given (that of the BOLT11 invoice)
+            let jop = if kind == 3 { coq.replacen("PAddInvoice", "JAddInvoice", 1) } else { jop };
+            let outp = if !ok {
+                "mkO Refused None None None None".to_string()
+            } else {
+                match kind {
+                    1 => format!("mkO Ok None None None (Some ({}, {}, {}))", a, a, b),
+                    2 => {
+                        let o = |x: Option<u64>| x.map(|v| format!("(Some {})", v)).unwrap_or("None".into());
+                        let (p, sct) = sys.chans[a as usize].last_revoke_reply;
+                        format!("mkO Ok {} {} None None", o(p), o(sct))
+                    }
+                    _ => "mkO Ok None None None None".to_string(),
+                }
+            };
+            jt_ops.push(jop);
+            jt_obs.push(format!("({}, {}, {})", outp, sys.observe(), sys.chans_coq(&mut cids)));
+        }
         ops.push(coq);
         obs.push(format!("({}, {})", coq_bool(ok), sys.observe()));
         jops.push(json!({"op": j, "ok": ok}));
     }
     if !aborted {
-        violations.extend(sys.force_close_all());
+        // the force close at the end is part of the joint history: a restart, then for every
+        // channel the signature on the current holder commitment and on the next number
+        let (viol, steps) = sys.force_close_all(&mut cids);
+        violations.extend(viol);
+        for (o, ob) in steps {
+            jt_ops.push(o);
+            jt_obs.push(ob);
+        }
     }
     let hashes: Vec<String> = HASHES.iter().map(|h| h.to_string()).collect();
     let coq = format!(
@@ -640,8 +830,14 @@ fn run_case(case: usize, nch: usize, script: Option<Vec<Op>>, rng: &mut Rng, len
         coq_list(&ops),
         coq_list(&obs)
     );
+    let profile = if cfg!(debug_assertions) { "Debug" } else { "Release" };
+    let coq_joint = format!(
+        "(({}, {}%nat, {}, {}, {}), {}, {})",
+        profile, nch, fee_msat, pct, coq_list(&hashes), coq_list(&jt_ops), coq_list(&jt_obs)
+    );
     json!({"id": case, "nch": nch, "ops": jops, "monitor_violations": violations, "aborted": aborted,
-           "late_invoices": late_invoice, "coq": coq})
+           "late_invoices": late_invoice, "coq": coq, "coq_joint": if aborted { serde_json::Value::Null } else { json!(coq_joint) },
+           "joint_ops": jt_ops.len()})
 }
 
 fn one(h: u64, amt: u64, out: bool) -> Content {
